@@ -16,6 +16,7 @@ import (
 	"verifharness/drv/pk"
 	"verifharness/drv/re"
 	"verifharness/drv/rl"
+	"verifharness/drv/rp"
 	"verifharness/drv/rt"
 	"verifharness/drv/sy"
 	"verifharness/drv/tf"
@@ -64,6 +65,8 @@ func main() {
 		os.Exit(cfg.ChildMain(os.Args[2:]))
 	case "cfg-dump":
 		os.Exit(cfg.DumpMain(os.Args[2:]))
+	case "rp":
+		os.Exit(rp.Main(os.Args[2:]))
 	case "hb":
 		os.Exit(hb.Main(os.Args[2:]))
 	default:
